@@ -35,6 +35,7 @@
 #define SAMPLES_PER_DATA_MIN            (SAMPLE_DECIMATE_FACTOR_MIN)
 #define ENTRIES_PER_SUMMARY_MIN         (SAMPLE_DECIMATE_FACTOR_MIN)
 #define SUMMARY_DECIMATE_FACTOR_MIN     (SAMPLE_DECIMATE_FACTOR_MIN)
+#define TS_DECIMATE_FACTOR_MIN          (2)   // annotation & UTC index builder holds this many entries per level
 #define SIGNAL_DEF_PARAMETER_MAX        (1U << 24)  // keeps the 32-bit rounding and buffer size arithmetic from wrapping
 #define F64_BUF_LENGTH_MIN (1 << 16)
 #if defined(JLS_VERIF) && defined(JLS_VERIF_F64_BUF_LENGTH_MIN)
@@ -261,6 +262,8 @@ int32_t jls_core_signal_def_align(struct jls_signal_def_s * def) {
     def->samples_per_data = samples_per_data;
     def->entries_per_summary = entries_per_summary;
     def->summary_decimate_factor = summary_decimate_factor;
+    def->annotation_decimate_factor = u32_max(def->annotation_decimate_factor, TS_DECIMATE_FACTOR_MIN);
+    def->utc_decimate_factor = u32_max(def->utc_decimate_factor, TS_DECIMATE_FACTOR_MIN);
     return 0;
 }
 
